@@ -6,7 +6,7 @@
    params, whitelist view), and what the implementation did (ok/err, the token it
    minted and its owner in the collection, the observation vector of the minter's
    queries after the step, balances after the step). *)
-From LP Require Import Num Pay Sg1 Bank MinterVending.
+From LP Require Import Num Pay Sg1 Bank MinterVending MinterMigrate.
 
 Record sstep := mkStep {
   st_env : env; st_fp : fparams; st_wv : option wlview; st_op : vop;
@@ -17,12 +17,28 @@ Record sstep := mkStep {
   st_bal : bal                       (* tracked balances after the step *)
 }.
 
+(* a migration of the minter inside a history (not a `vop`: `world_step` and `step` are
+   unchanged): block time, whether the stored cw2 name is the contract's own, the stored
+   cw2 version parsed as MAJOR.MINOR.PATCH (None = does not parse), whether the sender is
+   the contract's wasm admin; what the chain did; the observation vector, the raw
+   LAST_DISCOUNT_TIME and the balances afterwards *)
+Record smig := mkMig {
+  mg_now : N; mg_name_ok : bool; mg_stored : option (N * N * N); mg_admin : bool;
+  mg_ok : bool;
+  mg_fp : fparams; mg_wv_after : option wlview;
+  mg_obs : list N;
+  mg_last_discount : N;
+  mg_bal : bal
+}.
+
+Inductive sitem := IStep (st : sstep) | IMigrate (m : smig).
+
 Record scase := mkCase {
   sc_variant : variant;
   sc_init : vstate;
   sc_bal : bal;
   sc_accts : list addr;              (* addresses whose MintCount is observed *)
-  sc_steps : list sstep;
+  sc_steps : list sitem;
   sc_final_positions : list (N * N)  (* raw MINTABLE_TOKEN_POSITIONS at the end *)
 }.
 
@@ -55,11 +71,15 @@ Definition world_step (vr : variant) (s : vstate) (b : bal) (st : sstep) : resul
 
 Definition pair_eqb (x y : N * addr) : bool := (fst x =? fst y) && (snd x =? snd y).
 
-Fixpoint run_steps (vr : variant) (accts : list addr) (s : vstate) (b : bal) (steps : list sstep) (i : N)
+Definition migrate_agrees (vr : variant) (accts : list addr) (s : vstate) (b : bal) (m : smig) : bool :=
+  list_eqb N.eqb (observe vr s (mg_fp m) (mg_wv_after m) accts) (mg_obs m)
+  && (s_last_discount s =? mg_last_discount m) && bal_agrees b (mg_bal m).
+
+Fixpoint run_steps (vr : variant) (accts : list addr) (s : vstate) (b : bal) (steps : list sitem) (i : N)
   : vstate * bal * option N :=                  (* third component: index of the first diverging step *)
   match steps with
   | [] => (s, b, None)
-  | st :: rest =>
+  | IStep st :: rest =>
       match world_step vr s b st with
       | Err =>
           if st_ok st then (s, b, Some i)
@@ -71,6 +91,16 @@ Fixpoint run_steps (vr : variant) (accts : list addr) (s : vstate) (b : bal) (st
                   && list_eqb N.eqb (observe vr s' (st_fp st) (st_wv_after st) accts) (st_obs st)
                   && bal_agrees b' (st_bal st)
                then run_steps vr accts s' b' rest (i + 1) else (s, b, Some i)
+      end
+  | IMigrate m :: rest =>
+      (* a migration moves no funds and emits no message: the balances stay *)
+      match minter_migrate vr (mg_now m) (mg_name_ok m) (mg_stored m) (mg_admin m) s with
+      | Err =>
+          if mg_ok m then (s, b, Some i)
+          else if migrate_agrees vr accts s b m then run_steps vr accts s b rest (i + 1) else (s, b, Some i)
+      | Ok s' =>
+          if negb (mg_ok m) then (s, b, Some i)
+          else if migrate_agrees vr accts s' b m then run_steps vr accts s' b rest (i + 1) else (s, b, Some i)
       end
   end.
 
